@@ -85,6 +85,10 @@ func validateVariableUsage(def *ast.VariableDefinition, usage *ast.Variable, typ
 	if variableType == nil {
 		return newSecondaryError(def, "no type info for variable type")
 	} else if locationType == nil {
+		if _, ok := typeInfo.ScalarLiteralValues[usage]; ok {
+			// within a literal for a scalar: there is no location type to be compatible with
+			return nil
+		}
 		return newSecondaryError(usage, "no type info for location type")
 	}
 
